@@ -705,6 +705,7 @@ func TestC15One(t *testing.T) {
 func TestC15Deadlines(t *testing.T) {
 	c := newCaseWriter(t, "c15dl")
 	defer c.close(t, "c15dl")
+	vlm := &violationLog{}
 	r := newRand(1503)
 	leases := []uint32{60, 61, 62, 63, 119, 120, 600, 3599, 3600, 86400, 1 << 20, 1286742, 1286743, 1286744, 9007199, 9007200, 1 << 24, 31536000, 1 << 30,
 		658812288, 658812289, 1317624576, 1317624577, 1 << 31, 1<<31 + 1, 3 << 30, 0xfffffffe, 0xffffffff}
@@ -750,8 +751,38 @@ func TestC15Deadlines(t *testing.T) {
 				// durations that do not fit uint64 print as huge numbers: still a mismatch on this line
 			}
 			c.add(1503, "deadlines", true, args(L{uint64(lease) * 1e9, uint64(t1) * 1e9, uint64(t2) * 1e9}), args(L{off(a), off(b), off(x)}))
+			// the lease is a span of elapsed time: its deadlines are readings of the monotonic clock (a time.Time stripped of it
+			// follows the wall clock, and a clock that is set back would keep the address beyond the lease)
+			atomic.AddInt64(&vlm.n, 1)
+			for k, d := range []time.Time{a, b, x} {
+				if lease <= 1<<24 && now.String() != now.Round(0).String() && d.String() == d.Round(0).String() {
+					vlm.add("c15-deadline-wallclock", "%s of a %d s lease carries no monotonic clock reading (%s): it follows the wall clock", []string{"T1", "T2", "expiry"}[k], lease, d)
+				}
+			}
 		})
 	}
+	// the same on the real clock (the bubble's clock may carry no monotonic reading at all)
+	for _, lease := range []uint32{60, 3600, 86400} { // (time.Time drops the monotonic reading by itself where it would overflow: decades)
+		for _, timers := range [][2]uint32{{0, 0}, {lease / 3, lease / 2}} {
+			ctx, cancel := context.WithCancel(context.Background())
+			cancel()
+			iface := &net.Interface{Index: 1, Name: "dl1", HardwareAddr: net.HardwareAddr{2, 0, 0, 0, 0, 1}}
+			dx := dclient.New(ctx, iface, log.New(io.Discard, "", 0), nil, nil)
+			dx.VerifSetLast(dhcpmsg.Message{YourIP: net.IPv4(10, 0, 0, 9)}, dhcpmsg.DecodedOptions{IPAddressLeaseDuration: time.Duration(lease) * time.Second,
+				RenewalDuration: time.Duration(timers[0]) * time.Second, RebindDuration: time.Duration(timers[1]) * time.Second})
+			now := time.Now()
+			dx.VerifRunStateBound()
+			a, b, x := dx.VerifDeadlines()
+			atomic.AddInt64(&vlm.n, 1)
+			for k, d := range []time.Time{a, b, x} {
+				if now.String() != now.Round(0).String() && d.String() == d.Round(0).String() {
+					vlm.add("c15-deadline-wallclock", "%s of a %d s lease carries no monotonic clock reading (%s): it follows the wall clock", []string{"T1", "T2", "expiry"}[k], lease, d)
+				}
+			}
+		}
+	}
+	vlm.write(t, "c15monotonic", map[string]interface{}{"distinct_nontrivial": int(atomic.LoadInt64(&vlm.n)), "histogram": map[string]int{"deadlines:monotonic": int(atomic.LoadInt64(&vlm.n))},
+		"samples": []string{"T1 / T2 / expiry of runStateBound are time.Time values with a monotonic clock reading"}})
 }
 
 // TestC16Stall: a transmission that takes long (a slow write, a starved process) must not be made up for by a burst: the
